@@ -37,6 +37,10 @@ def wfE : Expr → Bool
   | .topkSlice _ _ _ => true
   | .arrayJoinFrom s a => wfE s && wfE a
   | .fixedLit _ _ => true
+  | .jsonMap ps => !ps.isEmpty
+  | .regexMap _ _ _ => true
+  | .mapDrop m ps => wfE m && !ps.isEmpty
+  | .labelsFp => true
 def wfEs : List Expr → Bool
   | [] => true
   | e :: es => wfE e && wfEs es
